@@ -4,6 +4,7 @@ import (
 	"errors"
 	"net/url"
 	"reflect"
+	"sort"
 	"strings"
 )
 
@@ -74,10 +75,12 @@ func (v *VUrl) validate(value string) *VUrl {
 		urlQuery = decUrl[queryIndex+1:]
 	}
 	if urlQuery == "" {
+		v.requiredMissing(nil)
 		return v
 	}
 
 	var key, val string
+	exists := make(map[string]struct{}) // 记录 query 中存在的 key
 	for _, query := range strings.Split(urlQuery, "&") {
 		key = ""
 		val = ""
@@ -90,6 +93,7 @@ func (v *VUrl) validate(value string) *VUrl {
 			val = key2val[1]
 		}
 
+		exists[key] = struct{}{}
 		validNames := v.ruleObj.Get(key)
 		if validNames == "" {
 			continue
@@ -139,7 +143,32 @@ func (v *VUrl) validate(value string) *VUrl {
 			fn(v.errBuf, validName, "", key, reflect.ValueOf(val))
 		}
 	}
+	v.requiredMissing(exists)
 	return v
+}
+
+// requiredMissing 规则里设置了 required 但 query 中不存在的 key 也为必填错误
+func (v *VUrl) requiredMissing(exists map[string]struct{}) {
+	keys := make([]string, 0, len(v.ruleObj))
+	for key := range v.ruleObj {
+		if _, ok := exists[key]; !ok && key != "" {
+			keys = append(keys, key)
+		}
+	}
+	sort.Strings(keys) // 保证错误信息的顺序固定
+	for _, key := range keys {
+		for _, validName := range ValidNamesSplit(v.ruleObj.Get(key)) {
+			validKey, _, cusMsg := ParseValidNameKV(validName)
+			if validKey != Required {
+				continue
+			}
+			if cusMsg != "" {
+				v.errBuf.WriteString(GetJoinValidErrStr("", key, "", cusMsg))
+				continue
+			}
+			v.errBuf.WriteString(GetJoinValidErrStr("", key, "", ExplainEn, "it is", Required))
+		}
+	}
 }
 
 // getError 获取 err
